@@ -9,6 +9,7 @@ import random
 import tempfile
 import time
 from harness.core import cfg_text, Machinery
+from harness import tla
 from harness.drivers import lookup as drv
 
 INVS = ["ReloadIdempotent", "LoadMerges", "SaveReloadAgrees"]
@@ -60,33 +61,37 @@ def run(c):
     B = dict(hosts=["h1", "h2"], salts=[], ktypes=["rsa", "ed"], keyids=[1, 2], maxnames=2)  # multi-host lines, two types
     # ---- M: pinned load() must show both reload defects, each repair alone must leave the other
     few = dict(workers=4)
+    A1 = dict(A, maxnames=1)      # quick: single-name lines suffice for the shadowed-key mechanism; multi-name lines are in the generation run
     if q:
-        c.mc("HostKeys", cfg_text(constants=consts(maxfile=2, maxops=2, keep=False, fi=False, fs=False, **A), invariants=INVS),
+        c.mc("HostKeys", cfg_text(constants=consts(maxfile=2, maxops=2, keep=False, fi=False, fs=False, **A1), invariants=INVS),
              expect="ReloadIdempotent", name="pinned load()", **few)
     else:
         c.mc("HostKeys", cfg_text(constants=consts(maxfile=1, maxops=2, keep=False, fi=False, fs=True, **B), invariants=INVS),
              expect="ReloadIdempotent", name="pinned scan (names removed from the list being iterated), drop test repaired", **few)
         c.mc("HostKeys", cfg_text(constants=consts(maxfile=2, maxops=2, keep=False, fi=True, fs=False, **A), invariants=INVS),
              expect="ReloadIdempotent", name="pinned drop test (check() instead of 'already listed'), scan repaired", **few)
-    c.mc_holds("HostKeys", cfg_text(constants=consts(maxfile=2, maxops=2 if q else 3, keep=False, fi=True, fs=True, **A), invariants=INVS),
-               name="repaired load, universe A, 2-line files")
+    c.mc_holds("HostKeys", cfg_text(constants=consts(maxfile=2, maxops=3, keep=False, fi=True, fs=True, **(A1 if q else A)), invariants=INVS),
+               name="repaired load, universe A, 2-line files", workers=4 if q else 16)
     if not q:
         c.mc_holds("HostKeys", cfg_text(constants=consts(maxfile=1, maxops=4, keep=False, fi=True, fs=True, **B), invariants=INVS + ["CheckExact"]),
                    name="repaired load, universe B")
     stage["model_checking_s"] = round(time.time() - t0, 1)
     # ---- RP: histories enumerated by TLC, executed on the real HostKeys
-    plans = [(A, dict(maxfile=1, maxops=3)), (B, dict(maxfile=1, maxops=2))] if q else \
+    C = dict(hosts=["h1", "h2"], salts=[1], ktypes=["rsa"], keyids=[1, 2], maxnames=2)     # quick: A and B in one run (one key type)
+    plans = [(C, dict(maxfile=1, maxops=2))] if q else \
             [(A, dict(maxfile=2, maxops=2)), (A, dict(maxfile=1, maxops=4)), (B, dict(maxfile=1, maxops=3))]
     records, meta, n_enum = [], [], 0
     with tempfile.TemporaryDirectory(prefix="c41_", dir="/dev/shm" if os.path.isdir("/dev/shm") else None) as td:
         for uni, bound in plans:
             r = c.mc_holds("HostKeys", cfg_text(constants=consts(keep=True, fi=True, fs=True, **uni, **bound), invariants=INVS + ["Emit"]),
-                           name="history generation %s" % (bound,), workers=1)
-            cases = [cs for cs in r.printed("CASE") if cs[1]]
-            if not cases:
-                raise Machinery("no history emitted")
+                           name="history generation %s" % (bound,), workers=4)
+            cases = [tla.parse(cs[1]) for cs in r.printed("CASE")]      # [hist, store], one single-line print per state
+            if len(cases) != r.distinct:
+                raise Machinery("expected one CASE per state: %d vs %d" % (len(cases), r.distinct))
             # only maximal histories need running (every prefix is observed on the way)
-            hists = [cs[1] for cs in cases if len(cs[1]) == bound["maxops"]]
+            hists = [cs[0] for cs in cases if len(cs[0]) == bound["maxops"]]
+            if not hists:
+                raise Machinery("no history emitted")
             n_enum += len(hists)
             cap = 500 if q else 9000
             if len(hists) > cap:
@@ -103,7 +108,7 @@ def run(c):
         stage["replay_s"] = round(time.time() - t0, 1)
         # ---- TV: random histories, larger universe, noisy files
         world = drv.HKWorld(["h1", "h2", "h3", "h4"], ["rsa", "ed", "ec", "ec3"], [1, 2, 3], [1, 2])
-        for _ in range(150 if q else 4000):
+        for _ in range(120 if q else 4000):
             ops = random_history(rnd, world)
             events = drv.hk_run(world, ops, td, rnd=rnd, noise=True)
             records.append({"hosts": world.hosts, "ktypes": world.ktypes, "keys": world.keys, "events": events})
@@ -116,11 +121,11 @@ def run(c):
     chunk = 6000
     for lo in range(0, len(records), chunk):
         part = records[lo:lo + chunk]
-        res, _ = c.trace("HostKeys_Trace", part, cfg_text(spec="TSpec", constants=tconst, invariants=["Report"]), heap="8g")
+        res, _ = c.trace("HostKeys_Trace", part, cfg_text(spec="TSpec", constants=tconst, invariants=["Report"]), heap="8g", workers=4)
         if len(res["DONE"]) != len(part):
             raise Machinery("trace validation consumed %d of %d records" % (len(res["DONE"]), len(part)))
         for row in res["VERDICT"]:
-            tid, line, bad = row[1], row[2], row[3]
+            tid, line, bad = tla.parse(row[1])
             ops = meta[lo + tid - 1]
             rec = records[lo + tid - 1]
             for name, detail in bad:
@@ -142,7 +147,7 @@ def run(c):
     c.extra["enumerated_maximal_histories"] = n_enum
     c.extra["exhaustive"] = n_rp == n_enum       # model checking is exhaustive in both tiers; the replay only if nothing was sampled
     c.rule = ("histories of load / load-again / add / delete TLC enumerates over universe A (1 host, plain + hashed name, 2 keys of one type) "
-              "and B (2 hosts, 2 types x 2 keys, lines of <= 2 names) to the stated depth (all of them when <= %d per run, otherwise a seeded sample of that size), executed on paramiko.HostKeys with real keys; + seeded random "
+              "and B (2 hosts, 2 types x 2 keys, lines of <= 2 names) - quick tier: one merged universe (2 hosts, plain + hashed names, 2 keys of one type, depth 2) - to the stated depth (all of them when <= %d per run, otherwise a seeded sample of that size), executed on paramiko.HostKeys with real keys; + seeded random "
               "histories over 4 hosts x 2 salts x 4 key types x 3 keys with noise lines; distinct = distinct operation sequence; evaluations = operations executed"
               % (500 if q else 9000))
     c.assumptions = ["save() output is the public view of the store: names and keys of saved lines are mapped back by exact text",
